@@ -864,3 +864,41 @@ func margs(c ssa.CallInstruction) []ssa.Value {
 	}
 	return cc.Args
 }
+
+// resolve follows loads of single-store locals and value-preserving conversions.
+func resolve(v ssa.Value) ssa.Value {
+	for i := 0; i < 8; i++ {
+		v = peel(v)
+		u, ok := v.(*ssa.UnOp)
+		if !ok || u.Op != token.MUL {
+			return v
+		}
+		a, ok := u.X.(*ssa.Alloc)
+		if !ok {
+			return v
+		}
+		sv := singleStore(a)
+		if sv == nil {
+			return v
+		}
+		v = sv
+	}
+	return v
+}
+
+// sameVal: identical SSA value after resolving locals, or identical access
+// path for values that are not fresh allocations.
+func sameVal(a, b ssa.Value) bool {
+	if a == nil || b == nil {
+		return false
+	}
+	ra, rb := resolve(a), resolve(b)
+	if ra == rb {
+		return true
+	}
+	switch ra.(type) {
+	case *ssa.MakeMap, *ssa.MakeSlice, *ssa.MakeChan, *ssa.Alloc, *ssa.Call:
+		return false
+	}
+	return Path(ra) == Path(rb)
+}
